@@ -191,6 +191,99 @@ def judge_layers(run, exe, lcases, impl, crashes, base):
                           found_input=True, signature="cb layers " + (diff[0][0].split("=")[0] if diff else "?"))
 
 
+def gen_cache_case(rng, nops):
+    """reads through the read cache interleaved with add_cb / del_cb of layers that override nothing"""
+    ops = ["C"]
+    pool = []
+    depth = 0
+    for _ in range(nops):
+        k = rng.random()
+        if k < 0.62 or not pool:
+            if pool and rng.random() < 0.6:
+                a_as, a = rng.choice(pool)                # re-read a (probably cached) page
+                a = (a & ~0xff) + 8 * rng.randrange(31)
+            else:
+                a_as = rng.randrange(3)
+                r = rng.random()
+                if r < 0.1:
+                    a = rng.randrange(0x10) * 0x1000 + 8 * rng.randrange(0x1ff)
+                elif r < 0.14:
+                    a = 0xfffffffffffff000 + 8 * rng.randrange(0x1ff)
+                else:
+                    a = 0x10000 + rng.randrange(0x40) * 0x100 + 8 * rng.randrange(31)
+            pool.append((a_as, a))
+            ops.append("R%x:%x" % (a_as, a))
+        elif k < 0.84 and depth < 6:
+            ops.append("+")
+            depth += 1
+        elif depth:
+            ops.append("-%d" % rng.randrange(depth))
+            depth -= 1
+    return ops
+
+
+def judge_cache(run, exe, ccases, model, impl, crashes, base):
+    lines = []
+    for j, c in enumerate(ccases):
+        i = base + j
+        lines.append("%s | %s" % (" ".join(c), impl[i] if i < len(impl) else ""))
+    verd = core.run_model("cb-cachespec", run.casefile("cb-cachespec.txt", lines)) if lines else []
+    run.count("cache-histories", len(ccases))
+    bad = []
+    for j, c in enumerate(ccases):
+        i = base + j
+        ans = impl[i] if i < len(impl) else "NOT-RUN"
+        if i in crashes or ans.startswith(("CRASH", "NOT-RUN")) or verd[j] != "ok" or model[i] != ans:
+            bad.append(j)
+    for j in bad[:3]:
+        ops = ccases[j]
+
+        def run1(cand):
+            line = " ".join(["C"] + cand)
+            cf = run.casefile("cb-one.txt", [line])
+            m = core.run_model("cb", cf)
+            rc, out, err = core.run_impl(exe, [cf], timeout=60)
+            im = out.split("\n")[:-1]
+            v = core.run_model("cb-cachespec", run.casefile("cb-one-spec.txt", ["%s | %s" % (line, im[0] if im else "")]))
+            return m, im, rc, err, v[0]
+
+        def valid(cand):
+            depth = 0
+            for o in cand:
+                if o == "+":
+                    depth += 1
+                elif o[0] == "-":
+                    if int(o[1:]) >= depth:
+                        return False
+                    depth -= 1
+            return True
+
+        def fails(cand):
+            if not valid(cand):
+                return False
+            m, im, rc, err, v = run1(cand)
+            return rc != 0 or m != im or v != "ok"
+        if not fails(ops[1:]):
+            run.count("unreproducible-disagreement")
+            continue
+        small = core.shrink_list(ops[1:], fails)
+        m, im, rc, err, v = run1(small)
+        line = " ".join(["C"] + small)
+        replay = {"engine": "cb", "ops": line, "model": m, "implementation": im, "impl_exit": rc,
+                  "impl_stderr_tail": err[-1500:], "spec_verdict": v,
+                  "how": "bin/check C17 --replay <this file> re-runs the history through harness/cb_drv.c"}
+        if rc != 0:
+            run.violation("impl", "read cache and layers: sanitizer/crash (exit %s) on history: %s" % (rc, line),
+                          replay, found_input=True, signature="cb cache crash " + err[-300:])
+        elif v != "ok":
+            run.violation("spec", "adding/deleting a layer that overrides nothing disturbs the read cache: %s; "
+                          "history: %s" % (v, line), replay, found_input=True, signature="cb cache " + v[:40])
+        else:
+            run.violation("tie", "correspondence cb (CbCache.hrun vs ctx.c) broken on history: %s: model '%s' "
+                          "implementation '%s'" % (line, m[0][-120:], (im or ["?"])[0][-120:]), replay,
+                          found_input=False, signature="cb cache tie")
+
+
 def compare(run, exe, cases, model, spec, impl, crashes):
     bad = set(core.diff_lines(model, impl))
     spec_bad = {}
@@ -273,19 +366,27 @@ def check(run):
     if run.replay_path:
         rp = core.json.load(open(run.replay_path))["replay"]
         cases = [["K", kpath]] if rp["ops"] == "K" else [rp["ops"].split()]
-        if rp["ops"].startswith("L ") or rp["ops"] == "SITES":
+        if rp["ops"].startswith(("L ", "C")) or rp["ops"] == "SITES":
             cases = []
     else:
         n = 3000 if quick else 120000
         cases = [["K", kpath]] + [gen_case(run.rng, 5 if quick else 6) for _ in range(n)]
     check_sites(run)
     lcases = [] if (run.replay_path and not rp["ops"].startswith("L ")) else layer_cases(run)
+    if run.replay_path and rp["ops"].startswith("C"):
+        lcases = []
     if run.replay_path and rp["ops"].startswith("L "):
         f = rp["ops"].split()
         lcases = [(k, l) for k, l in lcases if l.split()[2:4] == f[2:4]]
         cases = []
     nplain = len(cases)
-    lines = [" ".join(c) for c in cases] + [l for _, l in lcases]
+    ccases = []
+    if run.replay_path:
+        if rp["ops"].startswith("C"):
+            ccases = [rp["ops"].split()]
+    else:
+        ccases = [gen_cache_case(run.rng, rng_n) for rng_n in [run.rng.randint(4, 40) for _ in range(700 if quick else 30000)]]
+    lines = [" ".join(c) for c in cases] + [l for _, l in lcases] + [" ".join(c) for c in ccases]
     run.cov["rule"] = ("stacks of 1..5 (thorough: 6) layers over a fresh context, each layer with private data or NULL and "
                        "a random subset of the seven hooks overridden (35% override nothing, 15% everything); every "
                        "hook invoked through addrxlat_ctx_get_cb() after building, between additions and after every "
@@ -296,7 +397,11 @@ def check(run):
                         "before the file is opened: attributes, reads in three address spaces and hook answers must be "
                         "identical; plus a scan of the sources for in-library hook invocation sites against "
                         "CbModel.library_sites")
-    run.cov["engines"]["cb"] = {"generated": len(cases), "dump_object_lines": len(lcases)}
+    run.cov["rule"] += ("; plus histories on one context that interleave reads through the 4-slot read cache (memory-array "
+                        "translation steps over a base layer handing out counted, poisoned-on-put page copies) with add_cb / "
+                        "del_cb of pass-through layers while the cache is warm, re-reading cached addresses")
+    run.cov["engines"]["cb"] = {"generated": len(cases), "dump_object_lines": len(lcases),
+                                "cache_histories": len(ccases)}
     cf = run.casefile("cb-cases.txt", lines)
     model = core.run_model("cb", cf)
     spec = core.run_model("cb-spec", cf)
@@ -308,5 +413,6 @@ def check(run):
     if crashes:
         run.count("impl-abnormal-exit", len(crashes))
     judge_layers(run, exe, lcases, impl, crashes, nplain)
+    judge_cache(run, exe, ccases, model, impl, crashes, nplain + len(lcases))
     compare(run, exe, cases, model[:nplain], spec[:nplain], impl[:nplain],
             {i: c for i, c in crashes.items() if i < nplain})
